@@ -7,6 +7,8 @@ use crate::lms::definitions::LmsPublicKey;
 
 pub mod definitions;
 mod helper;
+#[cfg(hbs_lms_verif)]
+pub use helper::get_tree_element;
 pub mod parameters;
 pub mod signing;
 pub mod verify;
